@@ -203,14 +203,14 @@ func samplesFor(t string, r *RNG, coll *reg.Collection) []operand.Op {
 			m.Scale = Pick(r, []uint8{1, 2, 4, 8})
 		}
 		if r.Chance(20) {
-			return operand.NewParamAddr("x", 8)
+			return paramMem("x", 8)
 		}
 		if r.Chance(15) { // pseudo-register base (stack or argument area) with an index register
 			ix := Pick(r, []reg.Register{reg.RCX, reg.R9, reg.RDX})
 			if r.Bool() {
-				return operand.NewStackAddr(8*r.Intn(3)).Idx(ix, Pick(r, []uint8{1, 2, 4, 8}))
+				return idxMem(stackMem(8*r.Intn(3)), ix, Pick(r, []uint8{1, 2, 4, 8}))
 			}
-			return operand.NewParamAddr("x", 8*r.Intn(2)).Idx(ix, Pick(r, []uint8{1, 8}))
+			return idxMem(paramMem("x", 8*r.Intn(2)), ix, Pick(r, []uint8{1, 8}))
 		}
 		return m
 	}
@@ -680,8 +680,8 @@ func predicateMatrixFor(c *Ctx, d *formsDump, only map[string]bool, file string)
 	univ = append(univ,
 		operand.Mem{Base: reg.RAX}, operand.Mem{Base: reg.R13, Index: reg.RCX, Scale: 8, Disp: 16}, operand.Mem{Base: reg.EAX}, operand.Mem{Index: reg.RCX, Scale: 4},
 		operand.Mem{}, operand.Mem{Base: coll.GP64(), Index: coll.GP64(), Scale: 1},
-		operand.NewParamAddr("x", 8), operand.NewStackAddr(16), operand.NewStackAddr(8).Idx(reg.RCX, 8), operand.NewParamAddr("x", 0).Idx(coll.GP64(), 4),
-		operand.NewDataAddr(operand.NewStaticSymbol("tbl"), 0), operand.NewDataAddr(operand.NewStaticSymbol("tbl"), 8).Idx(reg.RDX, 8),
+		paramMem("x", 8), stackMem(16), idxMem(stackMem(8), reg.RCX, 8), idxMem(paramMem("x", 0), coll.GP64(), 4),
+		dataMem(operand.NewStaticSymbol("tbl"), 0), idxMem(dataMem(operand.NewStaticSymbol("tbl"), 8), reg.RDX, 8),
 		operand.Mem{Base: reg.R8, Index: reg.X2, Scale: 4}, operand.Mem{Base: reg.RAX, Index: reg.Y9, Scale: 8}, operand.Mem{Base: reg.RDX, Index: reg.Z30, Scale: 1, Disp: 64},
 		operand.Mem{Base: reg.R8, Index: coll.XMM(), Scale: 4}, operand.Mem{Index: reg.X20, Scale: 2}, operand.Mem{Base: reg.X1, Index: reg.X2, Scale: 1},
 		operand.Rel(0), operand.Rel(127), operand.Rel(-128), operand.Rel(128), operand.Rel(-129), operand.Rel(1<<20), operand.LabelRef("lbl"))
